@@ -36,7 +36,7 @@ class XSession:
 
     def apply(self, d):
         t, c = self.t, d["call"]
-        a = {"v": [0, 0, 0], "axis": "z", "k": 0, "plane": "xy", "n": 1, "name": d.get("name", "A"), "P": [0, 0, 0]}
+        a = {"v": [0, 0, 0], "axis": "z", "k": 0, "plane": "xy", "n": 1, "name": d.get("name", "A"), "P": [0, 0, 0], "ang5": 0}
         out = "ok"
         pv = {"has": False, "y": [0, 0, 0], "P": [0, 0, 0]}
         x0 = None
@@ -51,6 +51,7 @@ class XSession:
                 t.translate(*d["v"])
             elif c == "rotate":
                 a["axis"], a["k"] = d["axis"], int(round(d["angle"] / 90.0)) % 4
+                a["ang5"] = int(round(math.radians(d["angle"]) * 1e5)) % 628319
                 t.rotate(d["angle"], d["axis"])
             elif c == "scale":
                 v = list(d["v"])
@@ -175,6 +176,23 @@ def random_descs(rng, n, exact):
             out.append({"call": rng.choice(["ctx_exit", "ctx_exit_raised"])})
         else:
             out.append({"call": "set_pivot", "P": [float(rng.randint(-3, 3)) for _ in range(3)]})
+    return out
+
+
+ANGLES = [0.5, -0.75, 90.25, 180.5, 270.75, 30.5, 45.0, 12.3, 359.5, -0.25, 89.5, 1.0, 100.0, 179.99, -135.0, 60.0, 0.01, 450.5]
+
+
+def rotation_descs(rng):
+    """A history whose first linear operation is one rotation by an arbitrary angle (C13_Angle reads it off directly)."""
+    out = []
+    if rng.random() < 0.6:
+        out.append({"call": "translate", "v": [rng.uniform(-5, 5) for _ in range(3)]})
+    if rng.random() < 0.6:
+        out.append({"call": "set_pivot", "P": [rng.uniform(-5, 5) for _ in range(3)]})
+    ang = rng.choice(ANGLES) if rng.random() < 0.7 else rng.uniform(-360, 360)
+    out.append({"call": "rotate", "angle": ang, "axis": rng.choice("xyz")})
+    if rng.random() < 0.5:
+        out.append({"call": "translate", "v": [rng.uniform(-5, 5) for _ in range(3)]})
     return out
 
 
